@@ -84,6 +84,13 @@ def find_witness(prop, label):
 
 
 if __name__ == '__main__':
+    if sys.argv[1:] == ['--warm']:
+        # build the test binary of a pristine copy once so that later runs are incremental
+        os.makedirs(WORK, exist_ok=True)
+        subprocess.run(['rsync', '-a', '--delete', '--exclude', 'target', '--exclude', '.git', REPO + '/', WORK + '/'], check=True)
+        env = dict(os.environ); env['CARGO_TARGET_DIR'] = TARGET; env['CARGO_NET_OFFLINE'] = 'true'
+        r = subprocess.run(['cargo', 'test', '--offline', '--config', 'profile.dev.package."*".opt-level=2', '--lib', '--no-run'], cwd=WORK, env=env)
+        sys.exit(r.returncode)
     names = sys.argv[1:]
     sel = [c for c in cases() if not names or c['name'] in names]
     res = run_cases(sel)
